@@ -245,6 +245,16 @@ def handle (s : Sexp) : D String :=
       | .ok (t', st) =>
         let fs := st.futures.map fun (n, a, p, sh) => s!"({Sexp.quote n} {a} {if p then "true" else "false"} {sh})"
         pure s!"ok {showRTerm t'} ({" ".intercalate fs}) {st.maxShift}"
+  | .list (.atom "addtimestmt" :: occs) => do
+      -- (addtimestmt (rf ff fp <term>) ...) : the atoms of a statement rewritten in order, one bookkeeping state
+      let os ← occs.mapM fun o => match o with
+        | .list [rf, ff, fp, t] => do pure ({ rf := ← decBool rf, ff := ← decBool ff, fp := ← decBool fp, pos := true, term := ← decATerm t } : AtomOcc)
+        | x => dfail "atom occurrence" x
+      match addTimeStmt os {} with
+      | .error e => pure ("ERR " ++ e.tag)
+      | .ok (ts, st) =>
+        let fs := st.futures.map fun (n, a, p, sh) => s!"({Sexp.quote n} {a} {if p then "true" else "false"} {sh})"
+        pure s!"ok ({" ".intercalate (ts.map showRTerm)}) ({" ".intercalate fs}) {st.maxShift}"
   | .list [.atom "ranges", t] => do
       -- time ranges of the atoms of a head formula: (key lo ray) ...
       match hCreateFormula (← decTTerm t) with
